@@ -265,6 +265,9 @@ func LoadPackage(dir string) (*PackageInfo, error) {
 
 		versionInfo, err := loadPackageVersion(vdir)
 		if err != nil {
+			if _, located := err.(validation.ValidationError); !located {
+				err = validation.NewValidationError(err, packageInfo.FilePath)
+			}
 			return packageInfo, err
 		}
 
@@ -368,6 +371,10 @@ func collectPackages(parentDir string, alreadyCollected map[string]*PackageInfo,
 		importChain[parentInfo.Namespace] = true
 		childInfo, err := collectPackages(dir, alreadyCollected, importChain, depthRemaining-1)
 		if err != nil {
+			if _, located := err.(validation.ValidationError); !located {
+				// the imported directory could not be read at all: name the package that imports it
+				err = validation.NewValidationError(err, parentInfo.FilePath)
+			}
 			return parentInfo, err
 		}
 		importChain[parentInfo.Namespace] = false
